@@ -44,6 +44,9 @@ theorem limits_ok : Extracted.Env.compareLimits = [Env.compareLimit, Env.compare
 /-- `diffEnv` returns "up to date" for equal encodings before it compares anything structurally -/
 theorem equalEncodingsFirst_ok : Extracted.Env.equalEncodingsFirst = true := by decide
 
+/-- … and for differing encodings it never answers "up to date", whatever the structural comparison says (D25) -/
+theorem equalDecodingsNotUpToDate_ok : Extracted.Env.equalDecodingsUpToDate = false := by decide
+
 /-- the opcode bytes -/
 theorem opcodes_ok : Extracted.Env.opcodes = Env.opcodeList := by decide
 
